@@ -678,6 +678,18 @@ def r_index_failstop(F, R):
                 for (o, w) in cs:
                     sites.append((cb, o, "in a closure: " + w))
         ok = bool(sites) and all(o for (_, o, _) in sites) and not b.can_return_avoiding(good)
+        # an Option-returning lookup the pinned tree does not have (`self.strided.get(i)` with the
+        # other level consulted on None): whether its None outcome is exactly "out of range" is the
+        # helper's value-level contract -- undecided, not a violation (round 17)
+        opaque = [callee_tag(t.get("callee")) for (_, t) in b.calls()
+                  if callee_tag(t.get("callee"))[0] in ("Stride",) and
+                  callee_tag(t.get("callee"))[1] not in ("index", "len", "push", "clear", "is_empty")]
+        opaque += [("inlined", p_.split("::")[-1]) for p_ in b.d.get("inlined", [])
+                   if "Stride" in p_ and p_.split("::")[-1] not in ("index", "len")]
+        if not ok and opaque:
+            R.undecided_site("R-BOUND", b.label(), "index() consults %s, a lookup helper the rule has no model for" %
+                             ", ".join("%s::%s" % o for o in opaque))
+            continue
         R.check("R-BOUND", b.label(), ok, construct="every path ends in a fail-stop access",
                 where=b.where(), detail="; ".join(w for (_, _, w) in sites))
     R.floor("R-BOUND", "IndexContainer::index bodies", n, 4)
